@@ -2,7 +2,7 @@
     Only statements, [exact], and [Print Assumptions]. Model: model/Tx.v; proofs: proofs/TxProofs.v. *)
 From Coq Require Import List NArith.
 From Coq Require Import Strings.Byte.
-From GoBT Require Import lib.Bytes lib.Parse lib.VarInt lib.Sha256 model.Tx proofs.TxProofs proofs.AuditATx.
+From GoBT Require Import lib.Bytes lib.Parse lib.VarInt lib.Sha256 model.Tx proofs.TxProofs proofs.AuditATx proofs.TxLocal.
 Import ListNotations.
 Local Open Scope N_scope.
 
@@ -138,6 +138,110 @@ Theorem C01_txs_canonical : forall bs l n rest, read_txs bs = POk (l, true) n re
   bs = txs_bytes (map parsed_item l) ++ rest /\ n = lenN (txs_bytes (map parsed_item l)).
 Proof. exact read_txs_canonical. Qed.
 Print Assumptions C01_txs_canonical.
+
+(** * locality (audit A clause 4): the result does not depend on what follows the transaction *)
+
+(** Tx.ReadFrom / NewTxFromStream (one function in the model): if a byte string is accepted, it splits into the
+    bytes taken ([pre], exactly the reported count) and the remainder, and the SAME bytes followed by ANY other
+    remainder (longer, shorter, empty) give the same transaction, the same format and minimality flags, the same
+    count, and leave that other remainder.  No hypothesis on the encoding: minimal and non-minimal length
+    prefixes, standard and extended format *)
+Theorem C01_read_tx_local : forall bs p n rest, read_tx bs = POk p n rest ->
+  exists pre, bs = pre ++ rest /\ n = lenN pre /\ forall rest', read_tx (pre ++ rest') = POk p n rest'.
+Proof. exact read_tx_local_stmt. Qed.
+Print Assumptions C01_read_tx_local.
+
+(** stream reading: whatever is appended after an accepted input is handed back untouched after the old remainder *)
+Theorem C01_read_tx_local_stream : forall bs p n rest suf, read_tx bs = POk p n rest ->
+  read_tx (bs ++ suf) = POk p n (rest ++ suf).
+Proof. exact read_tx_extend. Qed.
+Print Assumptions C01_read_tx_local_stream.
+
+(** the consumed prefix is itself a transaction: parsing exactly those bytes gives the same result, nothing left *)
+Theorem C01_parse_prefix_is_transaction : forall bs p n rest, read_tx bs = POk p n rest ->
+  exists pre, bs = pre ++ rest /\ n = lenN pre /\ read_tx pre = POk p n [].
+Proof. exact parse_prefix_is_transaction. Qed.
+Print Assumptions C01_parse_prefix_is_transaction.
+
+(** the same in DESIGN section 5's words (parse (firstn n b) = Ok (t, n)); the remainder is the input without
+    its first n bytes; and NewTxFromBytes accepts exactly those n bytes *)
+Theorem C01_parse_firstn : forall bs p n rest, read_tx bs = POk p n rest ->
+  read_tx (firstn (N.to_nat n) bs) = POk p n [] /\ rest = skipn (N.to_nat n) bs /\
+  tx_from_bytes (firstn (N.to_nat n) bs) = ROk p.
+Proof. exact parse_firstn. Qed.
+Print Assumptions C01_parse_firstn.
+
+(** counted lists (Txs.ReadFrom): the list, the flag, the count do not depend on what follows the list ... *)
+Theorem C01_read_txs_local : forall bs l n rest, read_txs bs = POk l n rest ->
+  exists pre, bs = pre ++ rest /\ n = lenN pre /\ forall rest', read_txs (pre ++ rest') = POk l n rest'.
+Proof. exact read_txs_local_stmt. Qed.
+Print Assumptions C01_read_txs_local.
+
+(** ... the consumed prefix is itself a counted list ... *)
+Theorem C01_txs_prefix_is_list : forall bs l n rest, read_txs bs = POk l n rest ->
+  exists pre, bs = pre ++ rest /\ n = lenN pre /\ read_txs pre = POk l n [].
+Proof. exact txs_prefix_is_list. Qed.
+Print Assumptions C01_txs_prefix_is_list.
+
+(** ... and the list decoder never runs out of fuel (as [C01_decoder_total] for one transaction) *)
+Theorem C01_list_decoder_total : forall bs, read_txs bs <> PFuel.
+Proof. exact read_txs_never_out_of_fuel. Qed.
+Print Assumptions C01_list_decoder_total.
+
+(** * failures.  The model has one error outcome, [PErr n] = "error after n bytes" (Go: the io error of a read that
+    found too few bytes; the decoder has no other way to reject) *)
+
+(** every failure is a short read: the decoder consumed ALL of its input before failing *)
+Theorem C01_error_is_short_read : forall bs n, read_tx bs = PErr n -> n = lenN bs.
+Proof. exact read_tx_error_is_short_stmt. Qed.
+Print Assumptions C01_error_is_short_read.
+
+(** a rejected input has no accepted beginning: every prefix of it, proper or not, is rejected as well *)
+Theorem C01_rejected_prefix_closed : forall pre suf n,
+  read_tx (pre ++ suf) = PErr n -> read_tx pre = PErr (lenN pre).
+Proof. exact read_tx_prefix_fails. Qed.
+Print Assumptions C01_rejected_prefix_closed.
+
+(** no truncated transaction is accepted: if [q ++ s] are the bytes an accepted transaction occupies and [s] is
+    not empty, then [q] alone is rejected (so the end of a transaction is determined by its bytes alone) *)
+Theorem C01_truncated_rejected : forall q s rest p n,
+  read_tx (q ++ s ++ rest) = POk p n rest -> s <> [] -> read_tx q = PErr (lenN q).
+Proof. exact read_tx_truncated_fails. Qed.
+Print Assumptions C01_truncated_rejected.
+
+(** NewTxFromBytes rejects every proper prefix of a byte string it accepts *)
+Theorem C01_from_bytes_truncated_rejected : forall q s p,
+  tx_from_bytes (q ++ s) = ROk p -> s <> [] -> tx_from_bytes q = RErr.
+Proof. exact from_bytes_truncated_fails. Qed.
+Print Assumptions C01_from_bytes_truncated_rejected.
+
+(** the same three for counted lists *)
+Theorem C01_txs_error_is_short_read : forall bs n, read_txs bs = PErr n -> n = lenN bs.
+Proof. exact read_txs_error_is_short_stmt. Qed.
+Print Assumptions C01_txs_error_is_short_read.
+Theorem C01_txs_rejected_prefix_closed : forall pre suf n,
+  read_txs (pre ++ suf) = PErr n -> read_txs pre = PErr (lenN pre).
+Proof. exact read_txs_prefix_fails. Qed.
+Print Assumptions C01_txs_rejected_prefix_closed.
+Theorem C01_txs_truncated_rejected : forall q s rest l n,
+  read_txs (q ++ s ++ rest) = POk l n rest -> s <> [] -> read_txs q = PErr (lenN q).
+Proof. exact read_txs_truncated_fails. Qed.
+Print Assumptions C01_txs_truncated_rejected.
+
+(** non-vacuity of the locality and truncation theorems on a NON-minimal, EXTENDED-format transaction
+    (input count fd 01 00): accepted with remainder [99], with remainder [], and with 70 other bytes after it, always
+    80 bytes and the same result; with its last byte missing it is rejected after all 79 bytes *)
+Example C01_locality_instance :
+  let pre := [x01;x00;x00;x00] ++ ext_marker ++ [xfd;x01;x00] ++ repeat_byte 32 xaa ++ [x00;x00;x00;x00] ++
+             [x01;x51] ++ [xff;xff;xff;xff] ++ [x88;x13;x00;x00;x00;x00;x00;x00] ++ [x02;x76;xa9] ++ [x01] ++
+             [x01;x00;x00;x00;x00;x00;x00;x00] ++ [x00] ++ [x00;x00;x00;x00] in
+  match read_tx (pre ++ [x99]), read_tx pre, read_tx (pre ++ repeat_byte 70 xef) with
+  | POk p n r, POk p' n' r', POk p'' n'' r'' =>
+      (p_min p, p_ext p, n, r) = (false, true, 80, [x99]) /\ (p', n', r') = (p, 80, []) /\
+      (p'', n'', r'') = (p, 80, repeat_byte 70 xef)
+  | _, _, _ => False
+  end /\ read_tx (removelast pre) = PErr 79.
+Proof. vm_compute. repeat split; reflexivity. Qed.
 
 (** non-vacuity: a byte string with a NON-minimal input count (fd 01 00) is accepted, flagged, consumed exactly *)
 Example C01_nonminimal_accepted :
